@@ -21,7 +21,7 @@ RULE = (
     "exactly. Non-trivial: batch size >= 2, or a pair closer than 1e-3 degrees, or a 180-degree / gimbal-lock case."
 )
 ASSUMPTIONS = [
-    "angular tolerance 2e-5 degrees: arccos of a dot product carrying 1 ulp error is off by up to 2*sqrt(2*1.1e-16) rad = 1.7e-6 degrees near 0",
+    "angular tolerance 2e-5 degrees only where arccos is ill-conditioned (angular distance < 0.01 degrees; cone distance < 0.01 or > 179.99 degrees: arccos of a dot product carrying 1 ulp error is off by up to 1.7e-6 degrees there); 1e-9 degrees elsewhere",
     "c_symmetry > 1 is not part of the property and is not exercised",
     "test inputs are built with scipy Rotation.from_matrix / from_euler; expected values never use scipy",
 ]
@@ -165,12 +165,12 @@ def _to_input(kind, mats, eulers):
 def run_pairs(case, out):
     from cryocat import geom
 
-    EA, MA, MB, EB, MC, kinds = [], [], [], [], [], []
+    EA, MA, MB, EB, MC, EC, kinds = [], [], [], [], [], [], []
     for it in case["items"]:
         ea = [float(v) for v in it["a"]]
         ma = oracle.R_cc(*ea)
         mb, eb = _mat_b(ma, ea, it["rel"])
-        EA.append(ea); MA.append(ma); MB.append(mb); EB.append(eb); MC.append(oracle.R_cc(*it["c"]))
+        EA.append(ea); MA.append(ma); MB.append(mb); EB.append(eb); MC.append(oracle.R_cc(*it["c"])); EC.append([float(v) for v in it["c"]])
         kinds.append(it["rel"]["kind"])
     if case.get("bulk"):
         rng = np.random.default_rng(case["bulk"]["seed"])
@@ -184,11 +184,18 @@ def run_pairs(case, out):
                 mb, eb, k = ma.copy(), list(ea), "same"
             else:
                 mb, eb, k = ma @ axis_angle(rng.normal(size=3), 10 ** rng.uniform(-9, -3)), None, "near"
-            EA.append(ea); MA.append(ma); MB.append(mb); EB.append(eb); MC.append(oracle.R_cc(*rng.uniform(-360, 360, 3)))
+            ec = list(rng.uniform(-360, 360, 3))
+            EA.append(ea); MA.append(ma); MB.append(mb); EB.append(eb); MC.append(oracle.R_cc(*ec)); EC.append(ec)
             kinds.append(k)
     n = len(MA)
     MQ = oracle.R_cc(*case["q"])
     as_ = case["as"]
+    if as_ == "euler":
+        # expected values must belong to exactly what is handed over: re-decode the Euler angles the harness computed for B
+        for i_ in range(n):
+            if EB[i_] is None:
+                EB[i_] = list(oracle.matrix_to_zxz(MB[i_]))
+                MB[i_] = oracle.R_cc(*EB[i_])
     out.label(f"as:{as_}", *(f"rel:{k}" for k in set(kinds)))
     gimbal = any(abs(math.sin(math.radians(e[1]))) < 1e-12 for e in EA)
     if gimbal:
@@ -202,7 +209,7 @@ def run_pairs(case, out):
 
     A = _to_input(as_, MA, EA)
     B = _to_input(as_, MB, EB)
-    C = _to_input(as_, MC, [None] * n)
+    C = _to_input(as_, MC, EC)
 
     def dist(label, X, Y, want, what):
         ok, r = call(out, "angular_distance", lambda: geom.angular_distance(X, Y))
@@ -217,7 +224,8 @@ def run_pairs(case, out):
             return None
         out.check(bool(np.all((d >= 0) & (d <= 180 + 1e-9))), "angdist:out_of_range", lambda: f"{what}: {d.min()} {d.max()}")
         if want is not None:
-            bad = np.abs(d - want) > TOL
+            # arccos is ill-conditioned only next to 0 degrees: elsewhere the value must be exact to 1e-9 degrees
+            bad = np.abs(d - want) > np.where(want < 0.01, TOL, 1e-9)
             out.check(not bad.any(), label, lambda: f"{what}: got {d[bad][0]!r} expected {want[bad][0]!r} (pair {int(np.argmax(bad))}, {kinds[int(np.argmax(bad))]})")
         return d
 
@@ -230,8 +238,19 @@ def run_pairs(case, out):
     QB = _to_input("rot" if as_ != "euler" else "euler", [MQ @ b for b in MB], [None] * n)
     AQ = _to_input("rot" if as_ != "euler" else "euler", [a @ MQ for a in MA], [None] * n)
     BQ = _to_input("rot" if as_ != "euler" else "euler", [b @ MQ for b in MB], [None] * n)
-    dist("angdist:not_left_invariant", QA, QB, exp, "d(QA,QB)")
-    dist("angdist:not_right_invariant", AQ, BQ, exp, "d(AQ,BQ)")
+    if as_ == "euler":
+        # the products are re-encoded as Euler angles by the harness; judge the result against the re-decoded matrices,
+        # and the invariance itself with the conditioning of that re-encoding (1e-6 degrees)
+        def redecode(E_):
+            return oracle.R_cc_batch(E_)
+        e_l = oracle.rot_angle_deg_batch(np.einsum("nji,njk->nik", redecode(QA), redecode(QB)))
+        e_r = oracle.rot_angle_deg_batch(np.einsum("nji,njk->nik", redecode(AQ), redecode(BQ)))
+        assert np.all(np.abs(e_l - exp) < 1e-5) and np.all(np.abs(e_r - exp) < 1e-5), "harness: re-encoded products drifted"
+        dist("angdist:not_left_invariant", QA, QB, e_l, "d(QA,QB)")
+        dist("angdist:not_right_invariant", AQ, BQ, e_r, "d(AQ,BQ)")
+    else:
+        dist("angdist:not_left_invariant", QA, QB, exp, "d(QA,QB)")
+        dist("angdist:not_right_invariant", AQ, BQ, exp, "d(AQ,BQ)")
     # triangle inequality through C
     d_ac = dist("angdist:value", A, C, oracle.rot_angle_deg_batch(np.stack([a.T @ c for a, c in zip(MA, MC)])), "d(A,C)")
     d_cb = dist("angdist:value", C, B, oracle.rot_angle_deg_batch(np.stack([c.T @ b for c, b in zip(MC, MB)])), "d(C,B)")
@@ -247,7 +266,7 @@ def run_pairs(case, out):
     if ok:
         cd = np.asarray(cd, float).reshape(-1)
         if out.check(cd.shape == (n,) and bool(np.all(np.isfinite(cd))), "cone:shape_or_nan", cd.shape):
-            bad = np.abs(cd - cone_exp) > TOL
+            bad = np.abs(cd - cone_exp) > np.where((cone_exp < 0.01) | (cone_exp > 179.99), TOL, 1e-9)
             out.check(not bad.any(), "cone:value", lambda: f"got {cd[bad][0]!r} expected {cone_exp[bad][0]!r}")
     ok, ip = call(out, "inplane_distance", lambda: geom.inplane_distance(RA, RB))
     if ok:
